@@ -37,7 +37,7 @@ def main():
     props = props or [meta["property"]]
     demo = meta["demo"]
     place = demo["place_at"] if isinstance(demo["place_at"], list) else [demo["place_at"]]
-    files = [f for f in os.listdir(out) if f not in ("patch.diff", "meta.json") and os.path.isfile(os.path.join(out, f))]
+    files = [f for f in os.listdir(out) if f.endswith(".go") and os.path.isfile(os.path.join(out, f))]
     work = tempfile.mkdtemp(prefix="verif-seed-")
     res = {"name": name, "ran_at": time.strftime("%Y-%m-%dT%H:%M:%SZ", time.gmtime()), "steps": {}}
     try:
@@ -60,8 +60,10 @@ def main():
                     target = os.path.join(root, place[0].replace("/tmp/seed-%s/" % meta["property"], "").lstrip("/"), f)
                 os.makedirs(os.path.dirname(target), exist_ok=True)
                 shutil.copy(os.path.join(out, f), target)
-        put_demo(clean); put_demo(pat)
-        run = demo["run"].replace("/tmp/seed-%s" % meta["property"], "@ROOT@")
+        put_demo(clean)
+        import re
+        run = demo["run"].replace("/tmp/seed-%s" % meta["property"], "@ROOT@").replace("<worktree>", "@ROOT@")
+        run = re.sub(r"\s+\(optionally.*$", "", run)
         def run_demo(root):
             cmd = run.replace("@ROOT@", root)
             if "@ROOT@" not in run and not cmd.startswith("cd "):
@@ -80,6 +82,7 @@ def main():
         res["steps"]["suite"] = {"exit": rc, "tail": o[-300:]}
         if rc != 0 or "FAIL" in o:
             print(o[-1500:]); print("REJECTED: existing suite fails on the patched tree"); return 6
+        put_demo(pat)
         rc, o = run_demo(pat)
         res["steps"]["demo_on_patched"] = {"exit": rc, "tail": o[-900:]}
         print("demo on patched tree: exit", rc)
